@@ -27,7 +27,9 @@ EXPLANATION = (
     "carquet_error_set bounds its message with vsnprintf(CARQUET_ERROR_MESSAGE_MAX); (6) every store of "
     "NULL into a capacity-tracked buffer member (decoded_values/decoded_capacity, carquet_buffer data/"
     "capacity) is followed by a store to the capacity member before the capacity is read again or the "
-    "function returns, so `need > capacity` re-allocation tests never trust a stale capacity. Decides these "
+    "function returns, so `need > capacity` re-allocation tests never trust a stale capacity; (7) count_leaves "
+    "(which sizes the per-leaf arrays) and the schema walk (which fills them) decide 'leaf' by the same "
+    "predicate. Decides these "
     "clauses, not arithmetic adequacy of every guard, total running time, nor leaks inside zlib/zstd.")
 
 PR = "src/reader/page_reader.c"
@@ -70,6 +72,9 @@ def run(ctx):
                           [("decoded_values", "decoded_capacity"), ("data", "capacity"),
                            ("page_buffer", "page_buffer_capacity")])
     ctx.floor("C04 NULL stores into capacity-tracked buffers", ncap, 8)
+    ctx.clause("C04.7 the per-leaf arrays are sized and filled under one leaf predicate")
+    from . import C17
+    C17.leaf_predicate_rule(ctx, "R3.extent")
     # ---- (1a) mmap pointer formation
     nptr = 0
     for fn in P.funcs_under("src/reader/"):
